@@ -26,9 +26,8 @@ Import ListNotations.
 Open Scope N_scope.
 
 (* ------------------------------------------------------------------ JSON values, records *)
-(* JNum c : a non-integral JSON number, value c/100 (duration_ms is rounded to two decimals);
-   JObj ne : an object (claims), ne = non-empty *)
-Inductive jval := JStr (v : str) | JInt (z : Z) | JNum (c : Z) | JBool (b : bool) | JObj (ne : bool).
+(* JNum c : a non-integral JSON number, value c/100 (duration_ms is rounded to two decimals); JObj : some object *)
+Inductive jval := JStr (v : str) | JInt (z : Z) | JNum (c : Z) | JBool (b : bool) | JObj.
 Definition record := list (str * jval).
 
 Fixpoint get (k : str) (r : record) : option jval :=
@@ -67,7 +66,7 @@ Definition lit_eqb (l : lit) (v : jval) : bool :=
   end.
 Definition has_type (t : ty) (v : jval) : bool :=
   match t, v with
-  | TString, JStr _ | TInteger, JInt _ | TNumber, JInt _ | TNumber, JNum _ | TBoolean, JBool _ | TObject, JObj _ => true
+  | TString, JStr _ | TInteger, JInt _ | TNumber, JInt _ | TNumber, JNum _ | TBoolean, JBool _ | TObject, JObj => true
   | _, _ => false
   end.
 Definition count_true (l : list bool) : nat := List.length (filter (fun b => b) l).
@@ -119,9 +118,7 @@ Record env := {
   server_version : str;         (* "" = not configured *)
   request_id : str;             (* "" = none *)
   request_b64 : str;            (* base64 of the captured request bytes (only looked at when a request was captured) *)
-  claims : option bool;         (* redacted claims: None = absent, Some ne *)
-  stats : list (str * jval);    (* the six call-statistics fields *)
-  extras : record               (* any further field (trace ids, state tokens, byte accounting, sticky session, ...) *)
+  st_ib : Z; st_ob : Z; st_ir : Z; st_or : Z; st_iy : Z; st_oy : Z   (* the six call-statistics counters *)
 }.
 
 Inductive transport := Sock | Http.
@@ -143,42 +140,51 @@ Definition message_field (sh : shape) (e : emission) : record :=
     else opt_field (s "error_message") (e_emsg e)
   else opt_field (s "error_message") (e_emsg e).
 
-(* the "extra" dict in source order, then what VgiJsonFormatter._build_payload puts in front *)
-Definition emit_record (c : cfg) (E : env) (e : emission) : record :=
+Definition stats_fields (E : env) : record :=
+  [ (s "input_batches", JInt (st_ib E)); (s "output_batches", JInt (st_ob E)); (s "input_rows", JInt (st_ir E));
+    (s "output_rows", JInt (st_or E)); (s "input_bytes", JInt (st_iy E)); (s "output_bytes", JInt (st_oy E)) ].
+
+(* The record is a JSON object: the order of its members is not observable.  [core] is what
+   VgiJsonFormatter._build_payload puts in front plus the always-present keys of the "extra" dict; the optional
+   groups follow, those no schema rule looks at ([tail_of]) are listed first.  Not modelled: claims (C35) and
+   further pass-through fields (trace ids, byte accounting, state tokens, sticky session); L_AccessLog.validate_inert
+   shows that fields of that kind do not change validity. *)
+(* optional fields none of the schema's rules looks at *)
+Definition tail_of (E : env) (e : emission) : record :=
+  (if e_cancelled e then [(s "cancelled", JBool true)] else [])
+  ++ opt_field (s "server_version") (server_version E)
+  ++ opt_field (s "request_id") (request_id E)
+  ++ (match e_http e with Some h => [(s "http_status", JInt h)] | None => [] end).
+
+Definition core (E : env) (e : emission) : record :=
   [ (s "timestamp", JStr (timestamp E)); (s "level", JStr (s "INFO")); (s "logger", JStr (s "vgi_rpc.access"));
     (s "message", JStr (protocol E ++ s "." ++ e_method e ++ s " " ++ status_str (e_error e)));
     (s "server_id", JStr (server_id E)); (s "protocol", JStr (protocol E)); (s "protocol_hash", JStr (protocol_hash E));
     (s "method", JStr (e_method e)); (s "method_type", JStr (mtype_str (e_stream e)));
     (s "principal", JStr (principal E)); (s "auth_domain", JStr (auth_domain E)); (s "authenticated", JBool (authenticated E));
     (s "remote_addr", JStr (remote_addr E)); (s "duration_ms", JNum (duration E));
-    (s "status", JStr (status_str (e_error e))); (s "error_type", JStr (e_etype e)) ]
-  ++ (if e_cancelled e then [(s "cancelled", JBool true)] else [])
+    (s "status", JStr (status_str (e_error e))); (s "error_type", JStr (e_etype e)) ].
+
+Definition body_of (c : cfg) (E : env) (e : emission) : record :=
+  core E e
+  ++ (if e_stats e then stats_fields E else [])
   ++ message_field (shp c) e
-  ++ opt_field (s "server_version") (server_version E)
-  ++ opt_field (s "request_id") (request_id E)
-  ++ (match e_http e with Some h => [(s "http_status", JInt h)] | None => [] end)
   ++ (if e_captured e then
         if debug c then [(s "request_data", JStr (request_b64 E))]
         else [(s "original_request_bytes", JInt (Z.of_nat (List.length (request_b64 E)))); (s "truncated", JStr (s "payload_omitted"))]
       else [])
-  ++ opt_field (s "stream_id") (e_sid e)
-  ++ (match claims E with Some ne => if ne then [(s "claims", JObj true)] else [] | None => [] end)
-  ++ extras E
-  ++ (if e_stats e then stats E else []).
+  ++ opt_field (s "stream_id") (e_sid e).
+
+Definition emit_record (c : cfg) (E : env) (e : emission) : record := tail_of E e ++ body_of c E e.
 
 (* ------------------------------------------------------------------ VgiAccessLogFormatter.format *)
 (* which form the size cap selected (the byte length of the JSON text is not modelled) *)
-Inductive shed := ShedNone | ShedReq | ShedReqClaims | ShedClaims | ShedSentinel.
+Inductive shed := ShedNone | ShedReq | ShedSentinel.      (* the claims step needs claims: not modelled *)
 
 Definition shed_request (r : record) : record :=
   match get (s "request_data") r with
   | Some (JStr d) => set (s "truncated") (JBool true) (del (s "request_data") (set (s "original_request_bytes") (JInt (Z.of_nat (List.length d))) r))
   | _ => r
-  end.
-Definition shed_claims (r : record) : record :=
-  match get (s "claims") r with
-  | Some _ => set (s "truncated") (JBool true) (set (s "claims") (JObj false) r)
-  | None => r
   end.
 Definition getd (k : str) (d : jval) (r : record) : jval := match get k r with Some v => v | None => d end.
 Definition sentinel (sh : shape) (r : record) : record :=
@@ -207,8 +213,6 @@ Definition format (sh : shape) (f : shed) (r : record) : record :=
   match f with
   | ShedNone => r
   | ShedReq => shed_request r
-  | ShedReqClaims => shed_claims (shed_request r)
-  | ShedClaims => shed_claims r
   | ShedSentinel => sentinel sh r
   end.
 
@@ -371,13 +375,44 @@ Definition sock_legal (q : request) : bool :=
 Definition rec_status (r : record) : option str := match get (s "status") r with Some (JStr v) => Some v | _ => None end.
 Definition rec_str (k : str) (r : record) : option str := match get k r with Some (JStr v) => Some v | _ => None end.
 
+(* ------------------------------------------------------------------ the schema the theorems are about *)
+(* access_log.schema.json as read on 2026-09-22; tie/T_AccessLog.v proves the regenerated term equal to it *)
+Definition model_schema : schema :=
+  {| s_required := [(s "timestamp");
+       (s "level");
+       (s "logger");
+       (s "message");
+       (s "server_id");
+       (s "protocol");
+       (s "protocol_hash");
+       (s "method");
+       (s "method_type");
+       (s "principal");
+       (s "auth_domain");
+       (s "authenticated");
+       (s "remote_addr");
+       (s "duration_ms");
+       (s "status");
+       (s "error_type")];
+     s_props := [((s "timestamp"), [CType TString; CPattern (Cat (Bos) (Cat (rep_cls (CRange 48 57) 4 4) (Cat (Chr (CChar 45)) (Cat (rep_cls (CRange 48 57) 2 2) (Cat (Chr (CChar 45)) (Cat (rep_cls (CRange 48 57) 2 2) (Cat (Chr (CChar 84)) (Cat (rep_cls (CRange 48 57) 2 2) (Cat (Chr (CChar 58)) (Cat (rep_cls (CRange 48 57) 2 2) (Cat (Chr (CChar 58)) (Cat (rep_cls (CRange 48 57) 2 2) (Cat (Chr (CChar 46)) (Cat (rep_cls (CRange 48 57) 3 3) (Cat (Chr (CChar 90)) (Dollar))))))))))))))))]); ((s "level"), [CConst (LStr (s "INFO"))]); ((s "logger"), [CConst (LStr (s "vgi_rpc.access"))]); ((s "message"), [CType TString]); ((s "server_id"), [CType TString; CMinLen 1%nat]); ((s "protocol"), [CType TString; CMinLen 1%nat]); ((s "protocol_hash"), [CType TString; CPattern (Cat (Bos) (Cat (rep_cls (COr (CRange 48 57) (CRange 97 102)) 64 64) (Dollar)))]); ((s "method"), [CType TString; CMinLen 1%nat]); ((s "method_type"), [CEnum [LStr (s "unary"); LStr (s "stream")]]); ((s "principal"), [CType TString]); ((s "auth_domain"), [CType TString]); ((s "authenticated"), [CType TBoolean]); ((s "remote_addr"), [CType TString]); ((s "duration_ms"), [CType TNumber; CMin (0)%Z]); ((s "status"), [CEnum [LStr (s "ok"); LStr (s "error")]]); ((s "error_type"), [CType TString]); ((s "error_message"), [CType TString]); ((s "cancelled"), [CConst (LBool true)]); ((s "server_version"), [CType TString; CMinLen 1%nat]); ((s "request_id"), [CType TString; CMinLen 1%nat]); ((s "trace_id"), [CType TString; CPattern (Cat (Bos) (Cat (rep_cls (COr (CRange 48 57) (CRange 97 102)) 32 32) (Dollar)))]); ((s "span_id"), [CType TString; CPattern (Cat (Bos) (Cat (rep_cls (COr (CRange 48 57) (CRange 97 102)) 16 16) (Dollar)))]); ((s "http_status"), [CType TInteger; CMin (100)%Z; CMax (599)%Z]); ((s "request_data"), [CType TString; CPattern (Cat (Bos) (Cat (Cat (Chr (COr (CRange 65 90) (COr (CRange 97 122) (COr (CRange 48 57) (COr (CChar 43) (CChar 47)))))) (Star (Chr (COr (CRange 65 90) (COr (CRange 97 122) (COr (CRange 48 57) (COr (CChar 43) (CChar 47)))))))) (Cat (rep_cls (CChar 61) 0 2) (Dollar))))]); ((s "stream_id"), [CType TString; CPattern (Cat (Bos) (Cat (rep_cls (COr (CRange 48 57) (CRange 97 102)) 32 32) (Dollar)))]); ((s "claims"), [CType TObject]); ((s "request_state"), [CType TString; CPattern (Cat (Bos) (Cat (Cat (Chr (COr (CRange 65 90) (COr (CRange 97 122) (COr (CRange 48 57) (COr (CChar 43) (CChar 47)))))) (Star (Chr (COr (CRange 65 90) (COr (CRange 97 122) (COr (CRange 48 57) (COr (CChar 43) (CChar 47)))))))) (Cat (rep_cls (CChar 61) 0 2) (Dollar))))]); ((s "response_state"), [CType TString; CPattern (Cat (Bos) (Cat (Cat (Chr (COr (CRange 65 90) (COr (CRange 97 122) (COr (CRange 48 57) (COr (CChar 43) (CChar 47)))))) (Star (Chr (COr (CRange 65 90) (COr (CRange 97 122) (COr (CRange 48 57) (COr (CChar 43) (CChar 47)))))))) (Cat (rep_cls (CChar 61) 0 2) (Dollar))))]); ((s "input_batches"), [CType TInteger; CMin (0)%Z]); ((s "output_batches"), [CType TInteger; CMin (0)%Z]); ((s "input_rows"), [CType TInteger; CMin (0)%Z]); ((s "output_rows"), [CType TInteger; CMin (0)%Z]); ((s "input_bytes"), [CType TInteger; CMin (0)%Z]); ((s "output_bytes"), [CType TInteger; CMin (0)%Z]); ((s "request_bytes"), [CType TInteger; CMin (0)%Z]); ((s "response_bytes"), [CType TInteger; CMin (0)%Z]); ((s "externalized_bytes"), [CType TInteger; CMin (0)%Z]); ((s "truncated"), [COneOf [LBool true; LStr (s "record_too_large"); LStr (s "payload_omitted")]]); ((s "sample_rate"), [CType TNumber; CExclMin (0)%Z; CMax (1)%Z]); ((s "original_request_bytes"), [CType TInteger; CMin (0)%Z]); ((s "session_id"), [CType TString; CPattern (Cat (Bos) (Cat (rep_cls (COr (CRange 48 57) (CRange 97 102)) 24 24) (Dollar)))]); ((s "session_action"), [CEnum [LStr (s "none"); LStr (s "open"); LStr (s "resume"); LStr (s "close")]]); ((s "dropped_records"), [CType TInteger; CMin (1)%Z])];
+     s_rules := [RIf {| if_const := [((s "status"), LStr (s "error"))]; if_required := [(s "status")]; if_not_required := [] |} [(s "error_message")] [((s "error_message"), [CMinLen 1%nat])];
+       RIf {| if_const := [((s "status"), LStr (s "ok"))]; if_required := [(s "status")]; if_not_required := [] |} [] [((s "error_type"), [CConst (LStr (s ""))])];
+       RIf {| if_const := [((s "method_type"), LStr (s "stream"))]; if_required := [(s "method_type")]; if_not_required := [] |} [(s "stream_id")] [];
+       RIf {| if_const := [((s "method_type"), LStr (s "unary"))]; if_required := [(s "method_type")]; if_not_required := [(s "truncated")] |} [(s "request_data")] [];
+       RAllOrNone [(s "input_batches");
+       (s "output_batches");
+       (s "input_rows");
+       (s "output_rows");
+       (s "input_bytes");
+       (s "output_bytes")]] |}.
+
 (* ------------------------------------------------------------------ correspondence entry point *)
 (* per request: the projection of every record  (method_type, status, error_type, error_message, cancelled,
    http_status, truncated marker, has request_data, stream-id class) *)
 Definition corr_env : env :=
   {| server_id := s "srv"; protocol := s "Interp"; protocol_hash := []; principal := []; auth_domain := []; authenticated := false;
      remote_addr := []; timestamp := []; duration := 0; server_version := []; request_id := s "r"; request_b64 := s "QUJD";
-     claims := None; stats := []; extras := [] |}.
+     st_ib := 0; st_ob := 0; st_ir := 0; st_or := 0; st_iy := 0; st_oy := 0 |}.
 Definition trunc_code (r : record) : N :=
   match get (s "truncated") r with
   | None => 0 | Some (JBool true) => 1
